@@ -33,7 +33,8 @@ func (o *OCIDir) tagDelete(_ context.Context, r ref.Ref) error {
 	}
 	changed := false
 	for i := len(index.Manifests) - 1; i >= 0; i-- {
-		if t, ok := index.Manifests[i].Annotations[aOCIRefName]; ok && t == r.Tag {
+		// match the tag the same way lookups and listings do, including a full image name in the annotation
+		if t, ok := index.Manifests[i].Annotations[aOCIRefName]; ok && (t == r.Tag || strings.HasSuffix(t, ":"+r.Tag)) {
 			// remove matching entry from index
 			index.Manifests = slices.Delete(index.Manifests, i, i+1)
 			changed = true
